@@ -222,7 +222,7 @@ func (r *lrunner) runEnd(cs LCase) (out Outcome, problem string) {
 	case further > 0:
 		// the Send of the next request fails: that error must surface
 		if ares.class != "WErr" {
-			st, _ := c.Status()
+			st, _ := guardedStatus(c)
 			ns, nr, np := 0, 0, 0
 			if st != nil {
 				ns, nr, np = len(st.SendErrs), len(st.ReadErrs), len(st.PendingTransactions)
